@@ -283,7 +283,7 @@ def planar_cases(draw):
 
 def run(ctx):
     q = ctx.tier == "quick"
-    run_hypothesis(ctx, hand_cases(), oracle, 45 if q else 600, "C03-hand")
-    run_hypothesis(ctx, flow_cases(), oracle, 14 if q else 180, "C03-flows")
+    run_hypothesis(ctx, hand_cases(), oracle, 45 if q else 350, "C03-hand")
+    run_hypothesis(ctx, flow_cases(), oracle, 14 if q else 100, "C03-flows")
     # leaky-relu planar flows far from their 0.01*N(0,1) initialisation: both evaluation paths exist only there
-    run_hypothesis(ctx, planar_cases(), oracle, 5 if q else 60, "C03-planar-far-from-init")
+    run_hypothesis(ctx, planar_cases(), oracle, 5 if q else 40, "C03-planar-far-from-init")
